@@ -1,13 +1,9 @@
 /-
-C03, html stage: the splitting lemma.  Two consecutive calls `filter(x); filter(y)` of `HtmlFilterBodyAction` behave as
-the single call `filter(x ++ y)` — same final state, concatenated outputs — whenever the cut is *safe* for the
-tokenizer: `SafeCut tk L x y` (L = `last_buffer` before the calls) says that, on the valid UTF-8 part,
-  (restart)  tokenising `prefix ++ more` gives the tokens already processed for `prefix` (prefix stability) followed by
-             the tokens of `held tail ++ more` obtained from a FRESH tokenizer (restart), with the same remainder;
-  (boundary) the held tail starts at a character boundary;
-  (held)     the "text containing `<` is held" rule selects the same token either way.
-It is a decidable statement about three tokenizations (`safeCutB`), evaluated by the C03 driver / harness at every cut
-that is syntactically safe (not inside a comment / declaration / CDATA / raw-text zone).
+C03, html stage: lemmas shared by the chunk-invariance proofs.  The token loop of `HtmlFilterBodyAction::filter` does not
+read `last_buffer` / `last_context` and only appends to `to_return`; `seqRun` = the html stage over a list of chunks; a
+chain that consists of one html stage in terms of `seqRun`.
+(Before fe7eac6 this file held the exact-state splitting lemma under the `SafeCut` hypothesis; since the tokenizer context
+is carried across chunks every cut is safe, see Proofs/FilterTotal.lean.)
 -/
 import RioModel.Proofs.FilterHtml
 import RioModel.Proofs.FilterUtf8
@@ -18,23 +14,24 @@ namespace Rio.Filter
 
 /-! ### the token loop does not read `last_buffer`, and only appends to `to_return` -/
 
-theorem onStart_setLast (s : HtmlSt) (L name data : Bytes) :
-    onStart { s with last := L } name data = ({ (onStart s name data).1 with last := L }, (onStart s name data).2) := by
+theorem onStart_setLast (s : HtmlSt) (L c name data : Bytes) :
+    onStart { s with last := L, ctx := c } name data =
+      ({ (onStart s name data).1 with last := L, ctx := c }, (onStart s name data).2) := by
   rw [onStart_eq, onStart_eq]
   simp only
   split
   · split <;> rfl
   · rfl
 
-theorem onEnd_setLast (tk : Tokenize) (ev : Bytes → Bytes → Bool) (s : HtmlSt) (L name data : Bytes) :
-    onEnd tk ev { s with last := L } name data =
-      ({ (onEnd tk ev s name data).1 with last := L }, (onEnd tk ev s name data).2) := by
+theorem onEnd_setLast (tk : Tokenize) (ev : Bytes → Bytes → Bool) (s : HtmlSt) (L c name data : Bytes) :
+    onEnd tk ev { s with last := L, ctx := c } name data =
+      ({ (onEnd tk ev s name data).1 with last := L, ctx := c }, (onEnd tk ev s name data).2) := by
   rw [onEnd_eq, onEnd_eq]
   simp only
   split <;> split <;> rfl
 
-theorem push_setLast (s : HtmlSt) (L out d : Bytes) :
-    push { s with last := L } out d = ({ (push s out d).1 with last := L }, (push s out d).2) := by
+theorem push_setLast (s : HtmlSt) (L c out d : Bytes) :
+    push { s with last := L, ctx := c } out d = ({ (push s out d).1 with last := L, ctx := c }, (push s out d).2) := by
   unfold push
   cases h : s.stack <;> simp [h]
 
@@ -45,9 +42,9 @@ theorem push_out (s : HtmlSt) (out0 out d : Bytes) :
 
 variable (tk : Tokenize) (ev : Bytes → Bytes → Bool)
 
-theorem stepTok_setLast (s : HtmlSt) (L out : Bytes) (t : Tok) :
-    stepTok tk ev ({ s with last := L }, out) t =
-      ({ (stepTok tk ev (s, out) t).1 with last := L }, (stepTok tk ev (s, out) t).2) := by
+theorem stepTok_setLast (s : HtmlSt) (L c out : Bytes) (t : Tok) :
+    stepTok tk ev ({ s with last := L, ctx := c }, out) t =
+      ({ (stepTok tk ev (s, out) t).1 with last := L, ctx := c }, (stepTok tk ev (s, out) t).2) := by
   cases hk : t.kind with
   | startTag =>
     rw [stepTok_start tk ev _ out t hk, stepTok_start tk ev s out t hk, onStart_setLast]
@@ -62,10 +59,10 @@ theorem stepTok_setLast (s : HtmlSt) (L out : Bytes) (t : Tok) :
     simp only [onEnd_setLast, push_setLast]
   | text =>
     rw [stepTok_other tk ev _ out t (by simp [hk, isTagKind]), stepTok_other tk ev s out t (by simp [hk, isTagKind])]
-    exact push_setLast s L out t.raw
+    exact push_setLast s L c out t.raw
   | other =>
     rw [stepTok_other tk ev _ out t (by simp [hk, isTagKind]), stepTok_other tk ev s out t (by simp [hk, isTagKind])]
-    exact push_setLast s L out t.raw
+    exact push_setLast s L c out t.raw
 
 theorem stepTok_out (s : HtmlSt) (out0 out : Bytes) (t : Tok) :
     stepTok tk ev (s, out0 ++ out) t = ((stepTok tk ev (s, out) t).1, out0 ++ (stepTok tk ev (s, out) t).2) := by
@@ -86,123 +83,28 @@ theorem stepTok_out (s : HtmlSt) (out0 out : Bytes) (t : Tok) :
     rw [stepTok_other tk ev s _ t (by simp [hk, isTagKind]), stepTok_other tk ev s out t (by simp [hk, isTagKind])]
     exact push_out _ _ _ _
 
-theorem fold_setLast_out (ts : List Tok) : ∀ (s : HtmlSt) (L out0 : Bytes),
-    ts.foldl (stepTok tk ev) ({ s with last := L }, out0) =
-      ({ (ts.foldl (stepTok tk ev) (s, [])).1 with last := L }, out0 ++ (ts.foldl (stepTok tk ev) (s, [])).2) := by
+theorem fold_setLast_out (ts : List Tok) : ∀ (s : HtmlSt) (L c out0 : Bytes),
+    ts.foldl (stepTok tk ev) ({ s with last := L, ctx := c }, out0) =
+      ({ (ts.foldl (stepTok tk ev) (s, [])).1 with last := L, ctx := c },
+        out0 ++ (ts.foldl (stepTok tk ev) (s, [])).2) := by
   induction ts with
-  | nil => intro s L out0; simp
+  | nil => intro s L c out0; simp
   | cons t ts ih =>
-    intro s L out0
+    intro s L c out0
     simp only [List.foldl_cons]
-    have h1 := stepTok_setLast tk ev s L out0 t
+    have h1 := stepTok_setLast tk ev s L c out0 t
     have h2 := stepTok_out tk ev s out0 [] t
     simp only [List.append_nil] at h2
     rw [h1, h2]
     generalize stepTok tk ev (s, []) t = p
     obtain ⟨s1, o1⟩ := p
     simp only
-    rw [ih s1 L (out0 ++ o1)]
-    have h3 := ih s1 s1.last o1
-    have e : ({ s1 with last := s1.last } : HtmlSt) = s1 := rfl
+    rw [ih s1 L c (out0 ++ o1)]
+    have h3 := ih s1 s1.last s1.ctx o1
+    have e : ({ s1 with last := s1.last, ctx := s1.ctx } : HtmlSt) = s1 := rfl
     rw [e] at h3
     rw [h3]
     simp [List.append_assoc]
-
-/-! ### the safe-cut predicate -/
-
-/-- `SafeCut tk L x y`: see the header.  `L` = `last_buffer` before the two calls, `x`, `y` = the two chunks. -/
-def SafeCut (L x y : Bytes) : Prop :=
-  ∀ a1 p1, utf8Split (L ++ x) = some (a1, p1) →
-    u8Run {} ((splitHeld (tk a1).1).2 ++ (tk a1).2) = some {} ∧
-    ∀ a' p', utf8Split (p1 ++ y) = some (a', p') →
-      tk (a1 ++ a') =
-        ((splitHeld (tk a1).1).1 ++ (tk ((splitHeld (tk a1).1).2 ++ (tk a1).2 ++ a')).1,
-          (tk ((splitHeld (tk a1).1).2 ++ (tk a1).2 ++ a')).2) ∧
-      splitHeld ((splitHeld (tk a1).1).1 ++ (tk ((splitHeld (tk a1).1).2 ++ (tk a1).2 ++ a')).1) =
-        ((splitHeld (tk a1).1).1 ++ (splitHeld (tk ((splitHeld (tk a1).1).2 ++ (tk a1).2 ++ a')).1).1,
-          (splitHeld (tk ((splitHeld (tk a1).1).2 ++ (tk a1).2 ++ a')).1).2)
-
-/-- the same as a Boolean (what the driver evaluates) -/
-def safeCutB (L x y : Bytes) : Bool :=
-  match utf8Split (L ++ x) with
-  | none => true
-  | some (a1, p1) =>
-    let todo1 := (splitHeld (tk a1).1).1
-    let tail := (splitHeld (tk a1).1).2 ++ (tk a1).2
-    (u8Run {} tail == some {}) &&
-    match utf8Split (p1 ++ y) with
-    | none => true
-    | some (a', _) =>
-      let r := tk (tail ++ a')
-      (tk (a1 ++ a') == (todo1 ++ r.1, r.2)) &&
-      (splitHeld (todo1 ++ r.1) == (todo1 ++ (splitHeld r.1).1, (splitHeld r.1).2))
-
-theorem safeCutB_sound (L x y : Bytes) (h : safeCutB tk L x y = true) : SafeCut tk L x y := by
-  intro a1 p1 h1
-  simp only [safeCutB, h1, Bool.and_eq_true, beq_iff_eq] at h
-  refine ⟨h.1, ?_⟩
-  intro a' p' h2
-  have h3 := h.2
-  simp only [h2, Bool.and_eq_true, beq_iff_eq] at h3
-  exact h3
-
-/-! ### the splitting lemma -/
-
-/-- **Splitting lemma**: at a safe cut, `filter(x)` then `filter(y)` is `filter(x ++ y)`. -/
-theorem filterHtml_merge (s s1 : HtmlSt) (x y o1 : Bytes)
-    (h1 : filterHtml tk ev s x = some (s1, o1)) (hsafe : SafeCut tk s.last x y) :
-    filterHtml tk ev s (x ++ y) = (filterHtml tk ev s1 y).map fun r => (r.1, o1 ++ r.2) := by
-  unfold filterHtml at h1
-  cases hsp : utf8Split (s.last ++ x) with
-  | none => simp [hsp] at h1
-  | some ap =>
-    obtain ⟨a1, p1⟩ := ap
-    simp only [hsp] at h1
-    obtain ⟨hv, hrest⟩ := hsafe a1 p1 hsp
-    -- name the pieces of the first call
-    generalize htk1 : tk a1 = tk1 at h1 hv hrest
-    obtain ⟨ts1, r1⟩ := tk1
-    generalize hsh1 : splitHeld ts1 = sh1 at h1 hv hrest
-    obtain ⟨todo1, hd1⟩ := sh1
-    simp only at h1 hv hrest
-    generalize hf1 : todo1.foldl (stepTok tk ev) (s, []) = f1 at h1
-    obtain ⟨sf1, of1⟩ := f1
-    simp only at h1
-    injection h1 with h1
-    injection h1 with hs1 ho1
-    subst hs1 ho1
-    -- the UTF-8 prologues of the two other calls
-    have hu2 : utf8Split ((hd1 ++ r1 ++ p1) ++ y) = (utf8Split (p1 ++ y)).map fun r => ((hd1 ++ r1) ++ r.1, r.2) := by
-      rw [List.append_assoc]
-      exact utf8Split_prefix (hd1 ++ r1) (p1 ++ y) hv
-    have hu : utf8Split (s.last ++ (x ++ y)) = (utf8Split (p1 ++ y)).map fun r => (a1 ++ r.1, r.2) := by
-      rw [← List.append_assoc]
-      exact utf8Split_append_right hsp y
-    unfold filterHtml
-    simp only [hu, hu2]
-    cases hpy : utf8Split (p1 ++ y) with
-    | none => simp
-    | some ap' =>
-      obtain ⟨a', p'⟩ := ap'
-      obtain ⟨hk1, hk2⟩ := hrest a' p' hpy
-      simp only [Option.map_some]
-      rw [hk1]
-      simp only
-      rw [hk2]
-      simp only
-      generalize tk (hd1 ++ r1 ++ a') = tk2
-      obtain ⟨ts2, r2⟩ := tk2
-      simp only
-      generalize splitHeld ts2 = sh2
-      obtain ⟨todo2, hd2⟩ := sh2
-      simp only
-      rw [List.foldl_append, hf1]
-      have key := fold_setLast_out tk ev todo2 sf1 (hd1 ++ r1 ++ p1) []
-      have key2 := fold_setLast_out tk ev todo2 sf1 sf1.last of1
-      have e : ({ sf1 with last := sf1.last } : HtmlSt) = sf1 := rfl
-      rw [e] at key2
-      rw [key, key2]
-      simp
 
 /-! ### sequences of calls -/
 
@@ -214,17 +116,6 @@ def seqRun (s : HtmlSt) : List Bytes → Option (HtmlSt × Bytes)
     | none => none
     | some (s1, o1) => (seqRun s1 xs).map fun r => (r.1, o1 ++ r.2)
 
-/-- every cut of the schedule `acc :: rest` is safe, seen from the state before the first chunk: the cut after the
-cumulative prefix `acc`, then the cuts of `(acc ++ y) :: rest'` -/
-def SafeCutsFrom (L : Bytes) : Bytes → List Bytes → Prop
-  | _, [] => True
-  | acc, y :: rest => SafeCut tk L acc y ∧ SafeCutsFrom L (acc ++ y) rest
-
-/-- every cut of a schedule is safe (nothing to check for zero or one chunk) -/
-def SafeCuts (s : HtmlSt) : List Bytes → Prop
-  | [] => True
-  | x :: rest => SafeCutsFrom tk s.last x rest
-
 theorem filterHtml_none_append (s : HtmlSt) (x y : Bytes) (h : filterHtml tk ev s x = none) :
     filterHtml tk ev s (x ++ y) = none := by
   unfold filterHtml at h ⊢
@@ -234,40 +125,6 @@ theorem filterHtml_none_append (s : HtmlSt) (x y : Bytes) (h : filterHtml tk ev 
     rw [List.append_assoc] at this
     simp [this]
   | some ap => simp [hsp] at h
-
-theorem seqRun_merge2 (s : HtmlSt) (x y : Bytes) (rest : List Bytes) (hs1 : SafeCut tk s.last x y) :
-    seqRun tk ev s (x :: y :: rest) = seqRun tk ev s ((x ++ y) :: rest) := by
-  simp only [seqRun]
-  cases hf : filterHtml tk ev s x with
-  | none => simp [filterHtml_none_append tk ev s x y hf]
-  | some r1 =>
-    obtain ⟨s1, o1⟩ := r1
-    simp only
-    rw [filterHtml_merge tk ev s s1 x y o1 hf hs1]
-    cases filterHtml tk ev s1 y with
-    | none => simp
-    | some r2 =>
-      obtain ⟨s2, o2⟩ := r2
-      simp only [Option.map_some]
-      cases seqRun tk ev s2 rest with
-      | none => simp
-      | some r3 => simp [List.append_assoc]
-
-theorem seqRun_mergeFrom (s : HtmlSt) : ∀ (rest : List Bytes) (acc : Bytes), SafeCutsFrom tk s.last acc rest →
-    seqRun tk ev s (acc :: rest) = seqRun tk ev s [acc ++ rest.flatten]
-  | [], acc, _ => by simp
-  | y :: rest, acc, h => by
-    obtain ⟨h1, h2⟩ := h
-    rw [seqRun_merge2 tk ev s acc y rest h1, seqRun_mergeFrom s rest (acc ++ y) h2]
-    simp [List.append_assoc]
-
-/-- **Chunk invariance of the html stage at safe cuts**: any non-empty schedule whose cuts are all safe gives the
-state and the output of the single chunk. -/
-theorem seqRun_merge (s : HtmlSt) (cs : List Bytes) (hne : cs ≠ []) (hsafe : SafeCuts tk s cs) :
-    seqRun tk ev s cs = seqRun tk ev s [cs.flatten] := by
-  cases cs with
-  | nil => exact absurd rfl hne
-  | cons x rest => simpa using seqRun_mergeFrom tk ev s rest x hsafe
 
 /-! ### a chain that consists of one html stage -/
 
@@ -315,26 +172,5 @@ theorem run_single_html (cs : List Bytes) (s s' : HtmlSt) (o : Bytes) (h : seqRu
     ({ items := [.html s] } : Chain D E).run tk ev codec cs = o ++ endHtml s' := by
   obtain ⟨outs, f1, f2⟩ := feed_single_html tk ev codec cs s s' o h
   simp only [Chain.run, Chain.runOuts, f1, end_single_html, f2]
-
-/-- Boolean form of `SafeCuts` (evaluated by the driver) -/
-def safeCutsFromB (L : Bytes) : Bytes → List Bytes → Bool
-  | _, [] => true
-  | acc, y :: rest => safeCutB tk L acc y && safeCutsFromB L (acc ++ y) rest
-
-def safeCutsB (s : HtmlSt) : List Bytes → Bool
-  | [] => true
-  | x :: rest => safeCutsFromB tk s.last x rest
-
-theorem safeCutsFromB_sound (L : Bytes) : ∀ (rest : List Bytes) (acc : Bytes),
-    safeCutsFromB tk L acc rest = true → SafeCutsFrom tk L acc rest
-  | [], _, _ => trivial
-  | y :: rest, acc, h => by
-    simp only [safeCutsFromB, Bool.and_eq_true] at h
-    exact ⟨safeCutB_sound tk L acc y h.1, safeCutsFromB_sound L rest (acc ++ y) h.2⟩
-
-theorem safeCutsB_sound (s : HtmlSt) (cs : List Bytes) (h : safeCutsB tk s cs = true) : SafeCuts tk s cs := by
-  cases cs with
-  | nil => trivial
-  | cons x rest => exact safeCutsFromB_sound tk s.last rest x h
 
 end Rio.Filter
